@@ -36,11 +36,13 @@ func (e *recEmitter) TaskInit(ti *cff.TaskInfo, di *cff.DirectiveInfo) cff.TaskE
 	e.log("TaskInit", ti.Name, di.Name)
 	return &taskEm{e, ti.Name}
 }
-func (t *taskEm) TaskSuccess(context.Context)                   { t.e.log("TaskSuccess", t.name, nil) }
-func (t *taskEm) TaskError(_ context.Context, err error)        { t.e.log("TaskError", t.name, err) }
-func (t *taskEm) TaskErrorRecovered(_ context.Context, err error) { t.e.log("TaskErrorRecovered", t.name, err) }
-func (t *taskEm) TaskSkipped(_ context.Context, err error)      { t.e.log("TaskSkipped", t.name, err) }
-func (t *taskEm) TaskPanic(_ context.Context, v interface{})    { t.e.log("TaskPanic", t.name, v) }
+func (t *taskEm) TaskSuccess(context.Context)            { t.e.log("TaskSuccess", t.name, nil) }
+func (t *taskEm) TaskError(_ context.Context, err error) { t.e.log("TaskError", t.name, err) }
+func (t *taskEm) TaskErrorRecovered(_ context.Context, err error) {
+	t.e.log("TaskErrorRecovered", t.name, err)
+}
+func (t *taskEm) TaskSkipped(_ context.Context, err error)   { t.e.log("TaskSkipped", t.name, err) }
+func (t *taskEm) TaskPanic(_ context.Context, v interface{}) { t.e.log("TaskPanic", t.name, v) }
 func (t *taskEm) TaskPanicRecovered(_ context.Context, v interface{}) {
 	t.e.log("TaskPanicRecovered", t.name, v)
 }
@@ -55,9 +57,9 @@ func (e *recEmitter) FlowInit(fi *cff.FlowInfo) cff.FlowEmitter {
 	e.log("FlowInit", fi.Name, nil)
 	return &flowEm{e, fi.Name}
 }
-func (f *flowEm) FlowSuccess(context.Context)              { f.e.log("FlowSuccess", f.name, nil) }
-func (f *flowEm) FlowError(_ context.Context, err error)   { f.e.log("FlowError", f.name, err) }
-func (f *flowEm) FlowDone(context.Context, time.Duration)  { f.e.log("FlowDone", f.name, nil) }
+func (f *flowEm) FlowSuccess(context.Context)             { f.e.log("FlowSuccess", f.name, nil) }
+func (f *flowEm) FlowError(_ context.Context, err error)  { f.e.log("FlowError", f.name, err) }
+func (f *flowEm) FlowDone(context.Context, time.Duration) { f.e.log("FlowDone", f.name, nil) }
 
 type parEm struct {
 	e    *recEmitter
